@@ -144,6 +144,7 @@ func init() {
 				}
 				sc := sc
 				var last []c11sOut
+				vsched.Stop = c.Expired
 				st := vsched.Explore(bound, 20000, func(prefix []int) *vsched.Exec {
 					ex, outs := c11sRunOne(sc, prefix)
 					last = outs
@@ -164,6 +165,9 @@ func init() {
 				c.Res.States += int64(st.Executions)
 				c.Res.Transitions += int64(st.Decisions)
 				c.Res.Traces += int64(st.Executions)
+				if st.TimedOut {
+					c.Inexhaustive("deadline reached inside the schedule exploration")
+				}
 				if st.Capped {
 					c.Inexhaustive(fmt.Sprintf("execution cap reached for %v", sc))
 				}
